@@ -3,6 +3,7 @@
 // reference and every simulated run happens in a child forked from it, so that function-local
 // statics of the library are cold in each run unless the plan asks for a warm-up.
 #include <errno.h>
+#include <fcntl.h>
 #include <signal.h>
 #include <sys/mman.h>
 #include <sys/personality.h>
@@ -247,6 +248,16 @@ static void task_body(int task, void* arg) {
 }
 
 static void child_common_setup(const Plan& pl, RunCtx& rc) {
+  // whatever the code under test prints (minimize's verbose mode, debug output of a change under
+  // test) must not end up in the worker's result stream
+  {
+    int devnull = open("/dev/null", O_WRONLY);
+    if (devnull >= 0) {
+      dup2(devnull, 1);
+      dup2(devnull, 2);
+      close(devnull);
+    }
+  }
   signal(SIGSEGV, crash_handler);
   signal(SIGBUS, crash_handler);
   signal(SIGFPE, crash_handler);
